@@ -412,16 +412,28 @@ func history(r *ev.Run, c Case) {
 			}
 			full := m.list(op.Name)
 			var sel []model.Ver
+			_, perr := sys.Semver().ParseConstraint(op.Version)
 			for _, v := range full {
+				if sys == resolve.NPM && perr != nil {
+					// Not a range: the version whose string or whole tag equals it.
+					hit := v.V == op.Version
+					for _, t := range strings.Split(v.Tags, ",") {
+						if t != "" && t == op.Version {
+							hit = true
+						}
+					}
+					if hit {
+						sel = append(sel, v)
+					}
+					continue
+				}
 				mv := mkVersion(sys, Op{Name: op.Name, Version: v.V, Tags: v.Tags})
 				if len(resolve.MatchRequirement(q, []resolve.Version{mv})) == 1 {
 					sel = append(sel, v)
 				}
 			}
-			if sys == resolve.NPM {
-				if _, perr := sys.Semver().ParseConstraint(op.Version); perr != nil && len(sel) > 1 {
-					continue
-				}
+			if sys == resolve.NPM && perr != nil && len(sel) > 1 {
+				continue
 			}
 			want := model.Order(sys, full, sel)
 			var gs, ws []string
